@@ -57,7 +57,7 @@ CHECKS = {
          "DESIGN.md §6 C11"),
  "C18": ("exhaustive enumeration of all DAG shapes up to 6 (thorough: 7) nodes + property-based testing of random shapes up to 300 nodes, against a recursive specification and a validity predicate",
          "Exploration, exhaustive for small shapes: an own DagLike implementation over bare shapes is iterated with NoSharing, InternalSharing and a class tracker modelling identity-hash sharing; post-order, right-to-left post-order, pre-order, verbose pre-order (with and without depth limit) and is_shared_as are compared with a recursive seen-set specification and an independent validity predicate (consecutive indices, children earlier, reported child indices hold the actual children).",
-         "Trusted: the recursive specifications in harness/src/props/c18.rs. Every shape of <= 48 nodes is also built as a DAG of real CommitNodes (unit/iden, injl, pair) and walked with the library's own MaxSharing<Commit> and InternalSharing trackers on &Node and Arc<Node> (post-order items, pre-order set, is_shared_as for the three policies) against a recursive specification over pointers / identity hashes.",
+         "Trusted: the recursive specifications in harness/src/props/c18.rs. Every shape of <= 48 nodes is also built as a DAG of real CommitNodes (unit/iden, injl, pair) and walked with the library's own MaxSharing<Commit> and InternalSharing trackers on &Node and Arc<Node> (post-order items, pre-order set, is_shared_as for the three policies) against a recursive specification over pointers / identity hashes. A fifth mode walks generated redemption programs (disconnect with branch) as Arc<RedeemNode> and as &RedeemNode and requires the two walks to agree.",
          "DESIGN.md §6 C18"),
  "C06": ("property-based differential testing of the Rust Bit Machine against libsimplicity's evaluator: generated Elements programs and per-jet templates (all 471 jets) x generated witnesses x generated transaction environments; verdict comparison",
          "Exploration with a differential partner: the verdict of BitMachine::exec (success / assertion / jet failure) must equal the verdict of evalTCOExpression(CHECK_NONE) on the program's serialisation in the same marshalled environment. Per-jet templates compare the jet's output inside the program with the value the Rust machine observed (combinator-only equality feeding assertr or the verify jet), so the verdict depends on every output bit as the C evaluator computes it; one-bit mutations of the expected value must fail with the predicted kind on both sides. The jet's argument sits alone in a fresh frame or, in half of the templates, behind / in front of a non-zero neighbour inside a larger frame; a delegation template checks the root that disconnect hands to its left child; further templates run one jet twice on one frame, execute one shared case node twice (right, then left) before the frame is read again, and start from memory that an earlier frame filled with ones.",
